@@ -46,11 +46,22 @@ func runRepr(c Case) (out Out) {
 			}()
 			log = nil
 			shared.Get(v)
-			if len(log) == 2 {
+			// what the ring hashed first is repr(v); innerRepr(v) is the later string of the form <digits>:<text>.
+			// A ring that hashes in another pattern (a harmless rewrite) leaves the field empty: not observed.
+			if len(log) >= 1 {
 				row[0] = hex.EncodeToString(log[0])
-				row[2] = hex.EncodeToString(log[1])
 			} else {
-				row[0], row[2] = "ff", "ff" // not the two evaluations the shared slot calls for
+				row[0] = hex.EncodeToString([]byte(lang.Repr(v)))
+			}
+			for _, l := range log[min(1, len(log)):] {
+				q := 0
+				for q < len(l) && l[q] >= '0' && l[q] <= '9' {
+					q++
+				}
+				if q > 0 && q < len(l) && l[q] == ':' {
+					row[2] = hex.EncodeToString(l)
+					break
+				}
 			}
 			h := hash.NewCustomConsistentHash(0, rec)
 			log = nil
@@ -60,12 +71,11 @@ func runRepr(c Case) (out Out) {
 			h.Remove(v)
 			rems := log
 			for q, idx := range vnodeIdx {
-				row[3+q], row[3+len(vnodeIdx)+q] = "ff", "ff"
-				if len(adds) == minReplicas {
+				if len(adds) == minReplicas && len(rems) == minReplicas {
 					row[3+q] = hex.EncodeToString(adds[idx])
-				}
-				if len(rems) == minReplicas {
 					row[3+len(vnodeIdx)+q] = hex.EncodeToString(rems[idx])
+				} else {
+					row[3+q], row[3+len(vnodeIdx)+q] = "-", "-" // not observed
 				}
 			}
 		}()
